@@ -29,6 +29,9 @@ def scenarios(tier):
                 keep.setdefault(cls, 0)
                 keep[cls] += 1
                 named.append((base[0] + "/" + fname, s))
+    # a server repeating the INSERT header block, a Cancel write that fails, a Close that reports an error, a query
+    # whose encoding fails: the cancellation at every state of each
+    named += c04.extra_scenarios(tier)
     return named
 
 
